@@ -46,7 +46,7 @@ def readCors (s : String) : Option Cors.Cors :=
     | _, _, _, _, _, _, _ => none
   | _ => none
 
-def requestIsText (r : Request) : Bool :=
+private def requestIsText (r : Request) : Bool :=
   Unicode.validUtf8 r.method && Unicode.validUtf8 r.uri && Unicode.validUtf8 r.version &&
   r.headers.all (fun h => Unicode.validUtf8 h.name && Unicode.validUtf8 h.value)
 
